@@ -202,6 +202,11 @@ class C12(Prop):
                 if not hasattr(S, "r"):
                     raise TypeError("constructor returned %s" % type(S).__name__)
                 rec["post"] = be.p_state(S)
+                # the caller rotates (in place) the state it was given; the next state asked for by the same name and size is
+                # still the documented one
+                S.rotate_by(be.pauli([1] + [0] * (scn["n"] - 1) + [0]))
+                S.rotate_by(be.pauli([0] * (scn["n"] - 1) + [2] + [2]))
+                rec["post2"] = be.p_state(f(scn["n"]))
             elif k == "randctor":
                 rec["name"], rec["n"] = scn["name"], scn["n"]
                 rec["rarg"] = scn.get("rarg") or 0
